@@ -6,7 +6,6 @@ From V Require Import Base.Int Base.IntLemmas Base.IO Base.Utf8 Gen.TextForms Ge
 From V Require Model.Parsed Model.Time Proofs.C14.
 Import ListNotations.
 Open Scope Z_scope.
-Set Default Timeout 60.
 Ltac Zify.zify_post_hook ::= Z.to_euclidean_division_equations.
 
 Import Model.Parsed.
